@@ -43,7 +43,7 @@ def shards(quick):
         # verdict at 2-4 blocks; long identities / messages are the recorded direction's business (exact bytes there)
         return [
             # every encoding of the six key kinds, exact
-            shard("codec", Masters=q(["s", "e"]), MasterClasses=q(["r1", "nm2"]), CodecKinds=q(ALL_KINDS), UidLens=S([0, 63]), Hids=S([1, 3]), workers=2),
+            shard("codec", Masters=q(["s", "e"]), MasterClasses=q(["r1", "nm2"]), CodecKinds=q(ALL_KINDS), UidLens=S([0, 63]), Hids=S([3]), workers=3),
             # every single-byte corruption of a signature (ASN.1: 104 bytes; h || S: 97 bytes)
             shard("sigtamA", Masters=q(["s"]), SignHows=q(["asn1"]), MLens=S([16]), Variants=q(ALL_VARIANTS), Tamper=T, TamperAll=T, Masks=S([1, 128])),
             shard("sigtamF", Masters=q(["s"]), SignHows=q(["func"]), MLens=S([16]), Variants=q(ALL_VARIANTS), Tamper=T, TamperAll=T, Masks=S([1, 128])),
